@@ -19,6 +19,7 @@
 import ast
 
 from sa import core
+from sa import pat
 from sa import pycfg
 from sa import tpl
 
@@ -294,14 +295,10 @@ def check(model, rep, tier):
   # whole-module parse
   pc = [c for c in ast.walk(pl.node) if isinstance(c, ast.Call) and
         core.dotted(c.func) == 'parse']
-  ok = len(pc) == 1 and core.norm(pc[0].args[0]) == 'source'
+  ok = len(pc) == 1
   if ok:
-    ds = tpl.rdefs(pl.node).reaching(pc[0], 'source') or []
-    ok = len(ds) == 1 and not isinstance(ds[0], tuple) and core.norm(ds[0]) == \
-        "''.join(lines)"
-    dl = tpl.rdefs(pl.node).reaching(pc[0], 'lines') or []
-    ok = ok and len(dl) == 1 and not isinstance(dl[0], tuple) and core.dotted(
-        dl[0].func) == 'linecache.getlines'
+    x = tpl.xnorm(pl, pc[0].args[0], pc[0])
+    ok = x.startswith("''.join(linecache.getlines(")
   rep.check(ok, 'SRC-LAMBDA', '%s:whole-module-parse' % pl.site,
             'the lambda must be located in the parse of the unmodified, whole '
             'source file', line=pl.node.lineno)
@@ -336,8 +333,18 @@ def check(model, rep, tier):
     facts = {'args': a, 'guards': gd}
     modvar = a[1][:-len('.__dict__')] if len(a) > 1 and a[1].endswith('.__dict__') \
         else None
-    ok = modvar is not None and a[0] == 'obj_file' and any(
-        p == 'T' and ('%s.__file__ == obj_file' % modvar) in t for p, t in gd)
+    filex = tpl.xnorm(fl, upd[0].args[0], upd[0])
+    ok = modvar is not None and filex == 'inspect.getfile(%s)' % fl.params()[0]
+    if ok:
+      hit = False
+      for i in ast.walk(fl.node):
+        if isinstance(i, ast.If) and any(x is upd[0] for st in i.body for x in ast.walk(st)):
+          for c in ast.walk(i.test):
+            if isinstance(c, ast.Compare) and isinstance(c.ops[0], ast.Eq):
+              sides = {tpl.xnorm(fl, c.left, c), tpl.xnorm(fl, c.comparators[0], c)}
+              if sides == {modvar + '.__file__', filex}:
+                hit = True
+      ok = hit
   rep.check(ok, 'SRC-GETTER', '%s:owning-module-namespace' % fl.site,
             'linecache must be refreshed with the namespace of the module '
             'whose __file__ is the object\'s file; obj.__module__ is what '
@@ -345,10 +352,17 @@ def check(model, rep, tier):
             witness='a wraps-wrapper from module A around a function of module '
             'B, A loaded by a zip/par loader')
   # future imports: joined in front, skipped by preamble_len
-  ok = any(isinstance(r, ast.Return) and isinstance(r.value, ast.Tuple) and
-           core.norm(r.value.elts[0]) ==
-           'parse(source, preamble_len=len(future_features))'
-           for r in ast.walk(pe.node))
+  fparam = pe.params()[1]
+  ok = False
+  for r in ast.walk(pe.node):
+    if isinstance(r, ast.Return) and isinstance(r.value, ast.Tuple):
+      c = r.value.elts[0]
+      if isinstance(c, ast.Call) and core.dotted(c.func) == 'parse' and any(
+          k.arg == 'preamble_len' and core.norm(k.value) == 'len(%s)' % fparam
+          for k in c.keywords):
+        # the text parsed is the joined (future statements + dedented source)
+        x = tpl.xnorm(pe, c.args[0], c)
+        ok = x.startswith("'\\n'.join(") and 'dedent_block(' in x and fparam in x
   rep.check(ok, 'SRC-GETTER', '%s:preamble' % pe.site,
             'the future-import preamble must be skipped by exactly its length',
             line=pe.node.lineno)
